@@ -334,6 +334,8 @@ pub fn set_default(dispatcher: &Dispatch) -> DefaultGuard {
 /// [span]: super::span
 /// [`Event`]: super::event::Event
 pub fn set_global_default(dispatcher: Dispatch) -> Result<(), SetGlobalDefaultError> {
+    #[cfg(all(tokio_rs_tracing_verif, feature = "std"))]
+    crate::verif::point("dispatch.global.before_cas");
     // if `compare_exchange` returns Result::Ok(_), then `new` has been set and
     // `current`—now the prior value—has been returned in the `Ok()` branch.
     if GLOBAL_INIT
@@ -361,9 +363,13 @@ pub fn set_global_default(dispatcher: Dispatch) -> Result<(), SetGlobalDefaultEr
         #[cfg(not(feature = "alloc"))]
         let collector = dispatcher.collector;
 
+        #[cfg(all(tokio_rs_tracing_verif, feature = "std"))]
+        crate::verif::point("dispatch.global.before_write");
         unsafe {
             GLOBAL_DISPATCH = Dispatch { collector };
         }
+        #[cfg(all(tokio_rs_tracing_verif, feature = "std"))]
+        crate::verif::point("dispatch.global.before_initialized");
         GLOBAL_INIT.store(INITIALIZED, Ordering::SeqCst);
         EXISTS.store(true, Ordering::Release);
         Ok(())
@@ -422,6 +428,8 @@ pub fn get_default<T, F>(mut f: F) -> T
 where
     F: FnMut(&Dispatch) -> T,
 {
+    #[cfg(tokio_rs_tracing_verif)]
+    crate::verif::point("dispatch.get_default");
     if SCOPED_COUNT.load(Ordering::Acquire) == 0 {
         // fast path if no scoped dispatcher has been set; just use the global
         // default.
@@ -1028,6 +1036,8 @@ impl State {
             .ok()
             .flatten();
         EXISTS.store(true, Ordering::Release);
+        #[cfg(tokio_rs_tracing_verif)]
+        crate::verif::point("dispatch.set_default.before_count");
         SCOPED_COUNT.fetch_add(1, Ordering::Release);
         DefaultGuard(prior)
     }
@@ -1076,6 +1086,8 @@ impl Drop for DefaultGuard {
         // could then also attempt to access the same thread local
         // state -- causing a clash.
         SCOPED_COUNT.fetch_sub(1, Ordering::Release);
+        #[cfg(tokio_rs_tracing_verif)]
+        crate::verif::point("dispatch.guard_drop.before_restore");
         let prev = CURRENT_STATE.try_with(|state| state.default.replace(self.0.take()));
         drop(prev)
     }
